@@ -190,6 +190,7 @@ func (s *Syncer) syncLoop(ctx context.Context, env *lmdb.Env, r *receiver.Receiv
 		// Additionally, in shadow mode, every load will implicitly trigger a
 		// snapshot when local changes are detected.
 		// TODO: LSE: Maybe also add MaxConsecutiveUpdateLoads, or base this on time?
+		verifYield("loop-top")
 		nLoads := 0
 	loadReadySnapshotsLoop:
 		for {
@@ -283,6 +284,7 @@ func (s *Syncer) syncLoop(ctx context.Context, env *lmdb.Env, r *receiver.Receiv
 		}
 
 		// Check for change in local LMDB
+		verifYield("loop-before-info")
 		info, err := env.Info()
 		if err != nil {
 			return err
@@ -339,6 +341,7 @@ func (s *Syncer) syncLoop(ctx context.Context, env *lmdb.Env, r *receiver.Receiv
 		}
 
 		// Sleep before next check for snapshots and local changes
+		verifYield("loop-before-sleep")
 		if err := utils.SleepContext(ctx, s.c.LMDBPollInterval); err != nil {
 			return err
 		}
@@ -359,6 +362,7 @@ func (s *Syncer) LoadOnce(ctx context.Context, env *lmdb.Env, instance string, u
 
 	schemaTracksChanges := s.lc.SchemaTracksChanges
 
+	verifYield("load-before-txn")
 	err = env.Update(func(txn *lmdb.Txn) error {
 		ts := time.Now()
 		tTxnAcquire = ts
@@ -524,6 +528,7 @@ func (s *Syncer) LoadOnce(ctx context.Context, env *lmdb.Env, instance string, u
 
 	// If no actual changes were made, LMDB will not record the transaction
 	// and reuse the ID the next time, so we need to adjust the txnID we return.
+	verifYield("load-after-txn")
 	info, err := env.Info()
 	if err != nil {
 		return 0, false, err
